@@ -220,6 +220,15 @@ pub fn mutate_text(src: &mut Src, s: &str) -> String {
             0 => {
                 v.remove(i);
             }
+            9 if v.contains(&'}') && src.bool() => {
+                // a third child in a taproot branch
+                let closes: Vec<usize> = (0..v.len()).filter(|j| v[*j] == '}').collect();
+                let at = *src.pick(&closes);
+                let ins = format!(",pk({})", keys::key_xonly(src.below(12)));
+                for (k, c) in ins.chars().enumerate() {
+                    v.insert(at + k, c);
+                }
+            }
             9 => {
                 // give a number (a threshold's k, a lock value, an index) children of its own
                 let digits: Vec<usize> = (0..v.len()).filter(|j| v[*j].is_ascii_digit() && (*j + 1 == v.len() || v[*j + 1] == ',' || v[*j + 1] == ')')).collect();
